@@ -74,11 +74,18 @@ def run_property(pid, tier, seed, only=None, keep=False, nworkers=16):
             vals = decode_inputs(r.cex, j.n_inputs)
             verdict, text = ("error", "no counterexample values")
             custom = getattr(mod, "custom_replay", None)
-            if r.cex is not None and exes:
+            cands = [c[1] for c in (r.cex_all or [])] or ([r.cex] if r.cex is not None else [])
+            for cand in cands[:6]:
+                if not exes:
+                    break
+                v = decode_inputs(cand, j.n_inputs)
                 if j.replay == "body":
-                    verdict, text = kani.replay_native(exes, j.body, j.params, vals)
+                    verdict, text = kani.replay_native(exes, j.body, j.params, v)
                 elif custom:
-                    verdict, text = custom(j, vals, exes)
+                    verdict, text = custom(j, v, exes)
+                vals = v
+                if verdict == "reproduced":
+                    break
             r.replay = {"verdict": verdict, "text": text, "inputs": [str(v) for v in vals]}
             if verdict == "reproduced":
                 role = mod.finding_role(j, vals, text) if hasattr(mod, "finding_role") else None
